@@ -174,13 +174,21 @@ def run_hp(mode: str, host: str, port: int, dflt: int, join: Any = None, split: 
     s = split or split_host_port
     d = None if dflt == NOPORT else dflt
     try:
-        text = j(host, port) if mode == "hp" else written(host, port)
+        if mode == "hp":
+            text = j(host, port)
+        elif mode == "splitb":      # an IPv6 host is written in brackets also when no port follows: "[::1]"
+            text = f"[{host}]" if (":" in host and port == NOPORT) else written(host, port)
+        elif mode == "netloc":      # the netloc of a target URI built from the parts (what dumpcap's filter splits)
+            from gallia.transports import TargetURI
+            text = TargetURI.from_parts("doip", host, None if port == NOPORT else port, {}).netloc
+        else:
+            text = written(host, port)
         h, p = s(text, d) if d is not None else s(text)
         got = {"t": "ok", "host": codes(h if isinstance(h, str) else None), "port": port_out(p)}
     except Exception:  # noqa: BLE001
         got = {"t": "err"}
-    return {"kind": mode, "host": codes(host), "port": port, "dflt": dflt, "got": got,
-            "text": {"host": host}}
+    return {"kind": "split" if mode in ("splitb", "netloc") else mode, "host": codes(host), "port": port, "dflt": dflt,
+            "got": got, "text": {"host": host, "spelling": mode}}
 
 
 def run_hpx(mode: str, host: str, ports: list[int], dflt: int, join: Any = None, split: Any = None) -> dict[str, Any]:
